@@ -1295,7 +1295,9 @@ static void exec_history(uint64_t seed, bool getters, struct hist_out *out)
     }
 
     /* ---- C01 accounting ---- */
-    lab_probes_release();
+    int probes_left = lab_probes_release();
+    if (probes_left) { char pk[96]; snprintf(pk, sizeof(pk), "c01:%s:probe-still-referenced", s->d->name);
+        vh_violation(pk, "%d probes given to pipes at allocation are still referenced after every pipe was released", probes_left); }
     if (pooltrack_violations) vh_violation("c01:pool-discipline", "%s (pipe %s)", pooltrack_msg, s->d->name);
     long live = pooltrack_live();
     char key[96];
@@ -1781,8 +1783,9 @@ static void subpipe_case(struct vh_rng *r)
     for (int k = 0; k < 4; k++) upipe_release(sinks[k]);
     mockloop_run(E.upump_mgr, R, 1000, 8);
     check_c04(&S);
-    lab_probes_release();
     char key[96];
+    int probes_left = lab_probes_release();
+    if (probes_left) { snprintf(key, sizeof(key), "c01:%s:probe-still-referenced", name); vh_violation(key, "%d probes still referenced after every pipe was released", probes_left); }
     long live = pooltrack_live();
     if (pooltrack_violations) vh_violation("c01:pool-discipline", "%s (pipe %s)", pooltrack_msg, name);
     if (live) { snprintf(key, sizeof(key), "c01:%s:objects-still-held", name); vh_violation(key, "%ld pooled objects still held after the super-pipe, its sub-pipes and all handles were released", live); }
